@@ -149,7 +149,7 @@ class GeneralizedPseudoBayesian1(AdaptiveFilter):
             for num, model in enumerate(self.models):
                 # Nastasi, K.N. Dissertation: Section 4.5 Algorithm 4.3 eq 4.9 pg 64
                 self.model_likelihoods[num] = exp(-0.5 * model.nis) / sqrt(
-                    (2 * const.PI) ** self.true_y.shape[0] * det(model.innov_cvr),
+                    (2 * const.PI) ** model.innovation.shape[0] * det(model.innov_cvr),
                 )
 
             c = dot(self.model_likelihoods, self.mode_probabilities)
